@@ -25,11 +25,13 @@ props! {
     "C05" => c05,
     "C06" => c06,
     "C07" => c07,
+    "C08" => c08,
     "C09" => c09,
     "C10" => c10,
     "C11" => c11,
     "C12" => c12,
     "C13" => c13,
     "C14" => c14,
+    "C15" => c15,
     "C19" => c19,
 }
